@@ -338,7 +338,7 @@ def _nd_native(kw, inst):
         coords["p"] = np.arange(NPASSIVE, dtype=float)
     ds = xarray.Dataset({"v": (dims, np.asarray(kw["y"], dtype=float)), "untouched": (("q",), np.array([1.0, 2.0, 3.0]))}, coords=coords)
     out = interpolate_dataset_along_axis(np.asarray(kw["x"], dtype=float), ds, coordinate_name=cname, nearest_neighbour=bool(kw["nearest"]))
-    assert np.array_equal(out["untouched"].values, ds["untouched"].values), "variable without the coordinate must pass through"
+    assert "untouched" in out and np.array_equal(out["untouched"].values, ds["untouched"].values), "variable without the coordinate must pass through"
     assert list(out["v"].dims) == list(dims) and np.array_equal(out["v"].coords[cname].values, np.asarray(kw["x"], dtype=float))
     return out["v"].values
 
@@ -619,6 +619,20 @@ def _nd_contract(nearest):
 nd_linear, nd_nearest = _nd_contract(False), _nd_contract(True)
 
 CONTRACTS = [enclosing, weights, data_interpolator, nd_linear, nd_nearest]
-TRUSTED = ["targets and grid nodes are finite (no NaN / inf coordinates)",
-           "np.searchsorted on a sorted array returns the number of cells < v (left) / <= v (right); sortedness is an obligation"]
-EXPLANATION = ""
+import contracts.C13_bounded as _B
+BOUNDED = [Bounded("dataset_axes_rank_1_to_4", _B.dataset_axes,
+                   "ranks 3 and 4, every axis position, passive sizes 1..3, pass-through, operands unmodified - through interpolate_dataset_along_axis"),
+           Bounded("time_axes_and_grid", _B.time_axes_and_grids,
+                   "datetime64 axes (to_datetime64 of the targets), interpolate_dataset_grid applies the coordinates in order and forwards nearest_neighbour")]
+TRUSTED = ["targets and grid nodes are finite (no NaN / inf coordinates); infinite data values are outside the model (contract option finite_reals)",
+           "possibly-NaN floats are pairs (real, flag) with IEEE propagation through + - * / and comparisons (pyvc.terms.XR)",
+           "np.searchsorted on a sorted array returns the number of cells < v (left) / <= v (right); sortedness is an obligation",
+           "boolean-mask selection / assignment x[m] op= y[m] acts cell by cell where m holds (masks proved identical, axis masks broadcast like numpy)",
+           "a single integer index array among slices gathers along that axis in place (numpy advanced indexing with one index array)",
+           "the generator _next_point is evaluated eagerly (it only reads indices_1d / weights_1d, which the consuming loop does not write)",
+           "np.rint rounds half to even; np.all(axis=...) is the conjunction over the reduced axes",
+           "rank-2 instances: passive axis of length 2 with symbolic values (value-complete, bounded in that length); ranks 3, 4 only in the bounded tier"]
+EXPLANATION = ("kernels proved for all grid lengths, target counts and values, ascending and descending: enclosing_points_1d (bracket, uniqueness, clipping), "
+               "interpolation_weights_1d (linear / nearest / extrapolating), NdInterpolator._data_interpolator (combination of two neighbours with the NaN rule) and "
+               "NdInterpolator.interpolate executed over the real get_data closure of dataset.py: value with slice-level NaN renormalisation, linear when both "
+               "neighbours are present, between the neighbouring values, exact at nodes, missing outside; witnesses go through interpolate_dataset_along_axis on xarray data")
